@@ -10,7 +10,7 @@ from lib import dbcgen as G
 from lib import matrices as M
 
 PID = "C05"
-EXTRA_PROPS = ("Num", "C05b")
+EXTRA_PROPS = ("Num", "C05b", "C05c")
 RULE = ("case 'rt' = a generated matrix of DBC-expressible content (identifier names incl. names longer than 32 characters, ECU names "
         "of >= 2 characters, standard/extended ids, CAN FD and J1939 frames, simple and extended multiplexing, float signals, limits, "
         "start values inside the limits and on the raw grid, cycle times, value tables with quotes, comments over several lines with "
@@ -19,8 +19,9 @@ RULE = ("case 'rt' = a generated matrix of DBC-expressible content (identifier n
         "variables, signals without frame; file encoding latin-1 or utf-8, comment encoding equal or utf-8 in a latin-1 file): written "
         "with canmatrix.formats.dump, read with loads, written again; observed: exception, 'error with line no' on stdout, byte "
         "equality of the two files, every path on which the normal forms (carrier attributes folded) differ. case 'file' = the frame "
-        "section of that file (BO_/SG_ lines) against the Lean writer and reader of Model/DbcText.lean. cases 'sg'/'bo'/'val' = one "
-        "statement: the line in the file and what the real reader makes of it alone. Non-trivial = distinct case.")
+        "section of that file (BO_/SG_ lines) against the Lean writer and reader of Model/DbcText.lean. cases 'sg'/'bo'/'val'/'tx'/'vt'/'mul'/'def'/'dd'/'ba' = one "
+        "statement (SG_, BO_, VAL_, BO_TX_BU_, SIG_VALTYPE_, SG_MUL_VAL_, BA_DEF_, BA_DEF_DEF_, BA_ of user attributes on all levels): the line "
+        "in the file against the Lean writer, and what the real reader makes of it alone against the Lean reader. Non-trivial = distinct case.")
 PARTIAL = ["the Lean model covers the frame section (BO_, SG_ with multiplex tags) at file level and VAL_ at statement level; comments, "
            "attributes, definitions, senders, signal groups, SG_MUL_VAL_, EV_ and the reader's post-processing are decided by the "
            "round-trip observation (S) only",
@@ -205,6 +206,52 @@ def cases_of(desc, rng=None):
     for v in vals[:3]:
         if "\\" not in "".join(t for _, t in v["entries"]):
             yield {"op": "val", "c": {"m": desc, "val": v}}
+    # attribute statements: definitions, defaults, values (user attributes; the carriers Gen*/System* are the writer's own)
+    kw = {"frame": "BO_", "signal": "SG_", "ecu": "BU_", "global": ""}
+    kinds = {}
+    nd = 0
+    for lvl in ("frame", "signal", "ecu", "global"):
+        for name, definition, default in desc["defines"][lvl]:
+            kinds[(lvl, name)] = definition.split()[0]
+            if name.startswith("Gen") or nd >= 4:
+                continue
+            nd += 1
+            yield {"op": "def", "c": {"m": desc, "def": {"level": lvl, "name": name, "definition": definition}}}
+            if default is not None:
+                yield {"op": "dd", "c": {"m": desc, "dd": {"name": name, "text": definition.split()[0] in ("STRING", "ENUM"), "value": default}}}
+
+    def written(lvl, name, v):
+        k = kinds.get((lvl, name))
+        if k == "STRING":
+            return '"%s"' % v
+        if k == "ENUM":
+            return str(G.ENUM_VALUES.index(v)) if v in G.ENUM_VALUES else str(v)
+        return str(v)
+    bas = []
+
+    def user(attrs):
+        return [(k, v) for k, v in sorted(attrs.items()) if not (k.startswith("Gen") or k.startswith("System") or k in ("VFrameFormat", "BusType", "ProtocolType"))]
+    # (the values are taken from the matrix as built: add_attribute strips blanks at the ends of a value)
+    for k, v in user(db.attributes):
+        bas.append({"attr": k, "target": ["global"], "value": written("global", k, v)})
+    for e in db.ecus:
+        if len(e.name) > 32:
+            continue                # long ECU names travel in SystemNodeLongSymbol: decided by the whole-file round trip
+        for k, v in user(e.attributes):
+            bas.append({"attr": k, "target": ["ecu", e.name], "value": written("ecu", k, v)})
+    for f in db.frames:
+        cid = f.arbitration_id.to_compound_integer()
+        for k, v in user(f.attributes):
+            bas.append({"attr": k, "target": ["frame", cid], "value": written("frame", k, v)})
+        for sg in f.signals:
+            for k, v in user(sg.attributes):
+                bas.append({"attr": k, "target": ["signal", cid, out_name(sg.name)], "value": written("signal", k, v)})
+    if rng is not None:
+        rng.shuffle(bas)
+    for b in bas[:5]:
+        if "\n" in b["value"] or "\\" in b["value"]:
+            continue            # texts over several lines and backslashes: decided by the whole-file round trip
+        yield {"op": "ba", "c": {"m": desc, "ba": b}}
     # further statements: senders beyond the first, float types, extended multiplexing bindings
     n = {"tx": 0, "vt": 0, "mul": 0}
     for f in db.frames:
@@ -271,6 +318,59 @@ def observe(case):
         fr = db.frames[0] if db.frames else None
         sg = (fr.signals[0] if fr and fr.signals else None) or (db.signals[0] if db.signals else None)
         return {"line": line, "parsed": {"id": v["id"], "name": v["name"], "entries": [[int(k), t] for k, t in sg.values.items()]} if sg is not None else None}
+    if op == "def":
+        d = c["def"]
+        kwd = {"frame": "BO_", "signal": "SG_", "ecu": "BU_", "global": ""}[d["level"]]
+        line = next((l for l in r["lines"] if l.startswith('BA_DEF_ %s "%s" ' % (kwd, d["name"]))), None)
+        if line is None:
+            return {"line": "", "parsed": None}
+        db, _ = load_lines([line], enc)
+        got = None
+        for lvl, dd in (("frame", db.frame_defines), ("signal", db.signal_defines), ("ecu", db.ecu_defines), ("global", db.global_defines)):
+            if d["name"] in dd:
+                got = {"level": lvl, "name": d["name"], "definition": dd[d["name"]].definition}
+        return {"line": line, "parsed": got}
+    if op == "dd":
+        d = c["dd"]
+        line = next((l for l in r["lines"] if l.startswith('BA_DEF_DEF_ "%s" ' % d["name"])), None)
+        if line is None:
+            return {"line": "", "parsed": None}
+        db, _ = load_lines(['BA_DEF_ BO_ "%s" STRING;' % d["name"], line], enc)
+        dv = db.frame_defines[d["name"]].defaultValue if d["name"] in db.frame_defines else None
+        return {"line": line, "parsed": {"name": d["name"], "value": dv} if dv is not None else None}
+    if op == "ba":
+        b = c["ba"]
+        t = b["target"]
+        mid = {"global": "  ", "ecu": "BU_ %s " % (t[1] if len(t) > 1 else ""), "frame": "BO_ %s " % (t[1] if len(t) > 1 else ""),
+               "signal": "SG_ %s %s " % ((t[1], t[2]) if len(t) > 2 else ("", ""))}[t[0]]
+        line = next((l for l in r["lines"] if l.startswith('BA_ "%s" %s' % (b["attr"], mid))), None)
+        if line is None:
+            return {"line": "", "parsed": None}
+        # read the line alone after the objects it refers to; the attribute is defined as a text so that nothing is converted
+        ctx = {"global": ['BA_DEF_  "%s" STRING;' % b["attr"]],
+               "ecu": ['BU_: %s' % (t[1] if len(t) > 1 else ""), 'BA_DEF_ BU_ "%s" STRING;' % b["attr"]],
+               "frame": ['BO_ %s F: 8 Vector__XXX' % (t[1] if len(t) > 1 else 0), "", 'BA_DEF_ BO_ "%s" STRING;' % b["attr"]],
+               "signal": ['BO_ %s F: 8 Vector__XXX' % (t[1] if len(t) > 1 else 0), ' SG_ %s : 0|1@1+ (1,0) [0|1] "" Vector__XXX' % (t[2] if len(t) > 2 else "s"), "",
+                          'BA_DEF_ SG_ "%s" STRING;' % b["attr"]]}[t[0]]
+        import canmatrix.formats.dbc as _dbc
+        stored = {}
+        orig = {}
+        # the value as stored by the statement itself (before the post-processing strips the quotes of text attributes)
+        for cls in (canmatrix.canmatrix.Frame, canmatrix.canmatrix.Signal, canmatrix.canmatrix.Ecu, canmatrix.canmatrix.CanMatrix):
+            orig[cls] = cls.add_attribute
+
+            def rec(self, attribute, value, _cls=cls):
+                stored[attribute] = str(value).strip()
+                return orig[_cls](self, attribute, value)
+            cls.add_attribute = rec
+        try:
+            db, _ = load_lines(ctx + [line], enc)
+        finally:
+            for cls, f in orig.items():
+                cls.add_attribute = f
+        if b["attr"] not in stored:
+            return {"line": line, "parsed": None}
+        return {"line": line, "parsed": {"attr": b["attr"], "target": t, "value": stored[b["attr"]]}}
     if op == "tx":
         t = c["tx"]
         line = next((l for l in r["lines"] if l.startswith("BO_TX_BU_ %d " % t["id"])), None)
